@@ -303,6 +303,31 @@ pub fn run(tier: Tier, seed: u64) -> i32 {
         }
     }
 
+    // T9: widths outside 1..=64 (a signal list is plain data: `Signal::input("EN", 0, 0)`, a .dig pin
+    // with Bits 0 or 100): whatever such a signal carries, an accepted test runs without a panic
+    {
+        let ws = [0usize, 65, 100, 128, 1 << 20, usize::MAX];
+        let n = (ws.len() * 4 * 3) as u64;
+        let st = par_range("T9: signal widths 0, 65, 100, 128, 2^20, usize::MAX for the input / output / bidirectional / every signal of a test x 3 programs", n, &deadline, |idx, st| {
+            let d = digits(idx, &[3, 4, ws.len() as u64]);
+            let w = ws[d[2]];
+            let pick = |k: usize| if d[1] == k || d[1] == 3 { w } else { 4 };
+            let s9 = vec![Sig::inp("A", pick(0), 3), Sig::bidir("B", pick(2), V::Num(1)), Sig::inp("CLK", 1, 0), Sig::out("Q", pick(1))];
+            let l = |n: i64| Entry::Lit(n, Radix::Dec);
+            let neg = Entry::Paren(bin(BinOp::Sub, lit(0), lit(1)));
+            let body = match d[0] {
+                0 => vec![Stmt::Row(vec![l(5), neg.clone(), l(0), neg.clone(), Entry::X]), Stmt::Row(vec![Entry::X, Entry::Z, Entry::C, l(7), l(3)]), Stmt::Row(vec![neg.clone(), l(2), l(1), Entry::Z, Entry::Z])],
+                1 => vec![Stmt::Declare("V".into(), bin(BinOp::Add, name("Q"), name("B"))), Stmt::Loop("i".into(), lit(2), vec![Stmt::Row(vec![Entry::Paren(name("Q")), Entry::Paren(name("i")), Entry::C, Entry::X, neg.clone()])])],
+                _ => vec![Stmt::Row(vec![Entry::Bits(2, lit(2)), l(1), l(1), l(1)]), Stmt::Repeat(lit(2), vec![Entry::Z, Entry::X, Entry::X, Entry::X, Entry::X])],
+            };
+            let header: Vec<String> = if d[0] == 2 { vec!["A".into(), "B".into(), "CLK".into(), "B_out".into(), "Q".into()] } else { vec!["A".into(), "B".into(), "CLK".into(), "B_out".into(), "Q".into()] };
+            let prog = Program { header, body };
+            st.witness("signal_width_outside_1_to_64");
+            run_case_n(st, (10 << 40) + idx, &format!("T9: width {w} for {}", ["the input A", "the output Q", "the bidirectional B", "every signal"][d[1]]), &prog, &s9, &[Step::Ans(vec![("Q".into(), V::Num(-1)), ("B".into(), V::Num(300))])], true, 12);
+        });
+        total.merge(st);
+    }
+
     // T6: the C01/C18 program space under hostile constant answers
     let lists = c01::signal_lists();
     let hdr: Vec<String> = ["P0", "P1", "P2", "a", "i", "n", "Q"].iter().map(|s| s.to_string()).collect();
